@@ -32,6 +32,7 @@ class Execution:
 
 REGION_EVENTS = {
     "gc": {"sent", "handled", "enter_group", "exit_group", "slot", "final_slot"},
+    "resolve": {"file_requested"},
     "merge": {"merge_begin", "merge_end", "bucket_take", "bucket_park", "bucket_done", "publish",
               "reserve_ok", "reserve_fail"},
 }
